@@ -126,6 +126,11 @@ def run(tier, seed, replay=None):
                     c["id"], c["pkg"], c["comp"], got[k] if k < len(got) else "<missing>", want[k] if k < len(want) else "<missing>", detail),
                     P.case_text(c, seed))
     dcases = [c for c in c02.gen_cases(seed + 1, "quick")][: (25 if tier == "quick" else 70)]
+    # free data is opaque to the library's own reader: only the independent decoder can tell whether it is written as given
+    for k, c in enumerate(dcases):
+        if c.get("indexes") and not replay:
+            c["index_free"] = {c["indexes"][0][0]: "%02x%02x%02x%02x" % (1 + k % 250, 2, (3 * k) % 256, 4)}
+            c["pack_free"] = ("%02x" % (k % 256)) * 3 + "00" * 20 + "7f"
     if replay:
         dcases = D.parse_replay(replay) if " dir\n" in rtxt else []
     rm = D.run_cases(res, dcases, seed) if dcases else None
